@@ -425,5 +425,5 @@ func checkC16(c *Ctx) error {
 		}
 		runBigBatch(c, driver, bi, cmds, fmt.Sprintf("gen:%d", c.Env.Seed), nil)
 	})
-	return nil
+	return runC16EndToEnd(c)
 }
